@@ -88,6 +88,9 @@ type Features struct {
 	// OrderByAlias: ORDER BY may name a select-list alias. KeywordValues: CURRENT_DATE, CURRENT_TIMESTAMP,
 	// CURRENT_USER as value leaves (the parser gives them the shape of a column reference).
 	OrderByAlias, KeywordValues bool
+	// NoBackslashQuote: no string literal spelled with a backslash-escaped quote (C17: the linter's text
+	// rules do not know that escape - a listed finding)
+	NoBackslashQuote bool
 	// Flat: no nested query anywhere and no statement-starting keyword after the
 	// first token (SELECT/INSERT ... VALUES/DELETE only): the sub-grammar C12 quantifies over
 	Flat bool
